@@ -139,6 +139,10 @@ def c04_cfgs(tier):
          # the camera's frames grow during the run: a frame larger than what is left behind the head and in front of the drained reader (forced wrap)
          cfg('c04', 'D2', n=4, ringf=2, ringx=8, reshape_at=2, reshape_w=64, reshape_h=1, **base), cfg('c04', 1, n=4, ringf=2, ringx=8, reshape_at=1, reshape_w=64, reshape_h=1, **base),
          cfg('c04', 'D2', n=5, ringf=2, ringx=8, reshape_at=2, reshape_w=64, reshape_h=1, client=1, **base), cfg('c04', 'D2', n=4, ringf=2, ringx=8, w=64, reshape_at=2, reshape_w=3, reshape_h=1, **base),
+         # the camera delivers a smaller image than the shape it announced before the frame (the runtime reserved the announced size): every
+         # frame still reaches storage; the size-field clause of C05 is not judged for such a camera (packet_checks=0)
+         cfg('c04', 'D2', n=4, ringf=3, ringx=8, w=20, h=1, reshape_at=1, reshape_mode=1, reshape_w=3, reshape_h=1, packet_checks=0, **base),
+         cfg('c04', 1, n=5, ringf=2, ringx=8, w=20, h=1, reshape_at=2, reshape_mode=1, reshape_w=3, reshape_h=1, packet_checks=0, **base),
          # an ordinary acquisition after one whose storage failed (leftover worker state must not cost it frames)
          cfg('c06', 'D1', ends='ss', prog='z', fault_first=0, append_ms=12, n=3, ringf=2, ringx=8, exposure=4, **{'from': 1}),
          cfg('c06', 'D2', ends='ss', prog='z', fault_first=1, n=3, ringf=2, ringx=8, exposure=4, **{'from': 1}),
